@@ -1308,8 +1308,10 @@ def t_opt_cmp_fold(facts, res, tier):
                 nm = simple_name(x["e"])
                 b = env.get(nm) if nm else None
                 if b is not None and b.init is not None:
-                    it = _norm(b.init)
-                    if "peek()" in it and all(m in it for m in ("BCC", "BCS", "BEQ", "BNE", "BMI", "BPL")):
+                    import json as _json
+                    it = _json.dumps(b.init)
+                    peeks = any(y.get("k") == "mcall" and y["method"] == "peek" for y in walk(b.init))
+                    if peeks and all(('"%s"' % m) in it for m in ("BCC", "BCS", "BEQ", "BNE", "BMI", "BPL")):
                         look = True
         if not look:
             res.fail(key + ":second-consumer", facts.where(fn, node), "optimize() deletes `%s #m / %s` without looking at the instruction after the branch: when that is another conditional branch (`CMP #3 / BEQ .a / BCS .b`, the long-branch repair of `>` and the generator's own `>` pattern) it tests the carry or sign of the deleted compare" % (cmp_, arm))
